@@ -397,7 +397,7 @@ def _grid_shard(ctx: Ctx, shard: int, nshards: int) -> None:
 
 def run(ctx: Ctx) -> None:
     shard_run(ctx, _grid_shard)
-    shard_run(ctx, _shard, extra=(250 if ctx.quick else 4000,))
+    shard_run(ctx, _shard, extra=(250 if ctx.quick else 16000,))
 
 
 def replay(ctx: Ctx, case: dict) -> None:
